@@ -19,7 +19,11 @@ class Check(EngineCheck):
                 # dependencies up to the first changed one) — the "only if" of the property with its converse
                 "LLBuild.Refine.EngineImpl_sound_C02_once", "LLBuild.Refine.EngineImpl_sound_C06_executed_reference",
                 "LLBuild.Refine.EngineImpl_sound_C06_same_executed_set", "LLBuild.Refine.EngineImpl_sound_C06_in_order",
-                "LLBuild.Refine.monitor_accepts_out_of_order"]
+                "LLBuild.Refine.monitor_accepts_out_of_order",
+                # the property's "consequently" clauses on the concrete model's printed traces (Props/EngineImplSched3.lean)
+                "LLBuild.Refine.EngineImpl_sound_C02_executed_reference_concrete", "LLBuild.Refine.EngineImpl_sound_C02_identical_value_no_rerun",
+                "LLBuild.Refine.EngineImpl_sound_C02_order_only_never_triggers", "LLBuild.Refine.EngineImpl_sound_C02_null_build",
+                "LLBuild.Engine.C02_order_only_never_triggers", "LLBuild.Engine.C02_identical_value_no_rerun", "LLBuild.Engine.Ref_same_value"]
     mix = [(0.45, {}), (0.2, {"cancel": True}), (0.15, {"threads": True}), (0.2, {"reprogram": True})]
     budget = (300, 3000)
     assumptions = EngineCheck.assumptions + [
